@@ -62,9 +62,12 @@ func (s *Sys) resolve(box string, r *Ref) string {
 	return "bad-ref"
 }
 
-type failingReader struct{}
+type failingReader = FailingReader
 
-func (failingReader) Read([]byte) (int, error) { return 0, errors.New("injected read error") }
+// FailingReader is a content reader that reports an error instead of more bytes.
+type FailingReader struct{}
+
+func (FailingReader) Read([]byte) (int, error) { return 0, errors.New("injected read error") }
 
 // Apply runs op against the store and the model. It returns an id-free description of what
 // was observed (for cross-store comparison); violations go to o with keys prefixed by pid.
